@@ -276,7 +276,8 @@ func checkWalker(ctx *Ctx, fn *ssa.Function, calls []*ssa.Call, apiName string) 
 		return
 	}
 	skipEdge, goEdge := body.Succs[1], body.Succs[0]
-	if !goEdge.Dominates(call.Block()) {
+	_ = goEdge
+	if !edgeDominates(body, 0, call.Block()) {
 		fail("the binary call is not on the CanInterface()==true edge")
 		return
 	}
